@@ -489,6 +489,13 @@ func (c *Client) PublishPredefined(topicID uint16, payload []byte, qos uint8, re
 
 // Ping sends a PING packet to the MQTT-SN gateway.
 func (c *Client) Ping() error {
+	return c.ping(true)
+}
+
+// If the client is terminated during the ping, ping waits until the client's
+// goroutines finish iff waitForGroup is true. It must be false if ping is
+// called from one of those goroutines (it would wait for itself forever).
+func (c *Client) ping(waitForGroup bool) error {
 	transaction := newPingTransaction(c)
 	ping := pkts1.NewPingreq(nil)
 	c.transactions.StoreByType(pkts.PINGREQ, transaction)
@@ -500,6 +507,9 @@ func (c *Client) Ping() error {
 	case <-transaction.Done():
 		return transaction.Err()
 	case <-c.groupCtx.Done():
+		if !waitForGroup {
+			return nil
+		}
 		return c.group.Wait()
 	}
 }
